@@ -15,7 +15,8 @@ DOMAINS = {
     "lexer": {"letter": "L", "header_tokens": 3},
     "match": {"letter": "M", "header_tokens": 6},
     "p01": {"letter": "P", "header_tokens": 4}, "p02": {"letter": "P", "header_tokens": 4}, "p05": {"letter": "P", "header_tokens": 4},
-    "p04": {"letter": "P", "header_tokens": 4},
+    "p04": {"letter": "P", "header_tokens": 4}, "p17": {"letter": "P", "header_tokens": 4},
+    "errstr": {"letter": "E", "header_tokens": 5}, "expr": {"letter": "X", "header_tokens": 4},
     "p06": {"letter": "P", "header_tokens": 4}, "p08": {"letter": "P8", "header_tokens": 4}, "p09": {"letter": "P9", "header_tokens": 4},
 }
 
@@ -115,6 +116,16 @@ PROPS["C05"] = _pprop("ScpiVerif.Props.C05", [{"name": "p05", "cfgs": ["A"]}], [
 PROPS["C04"] = _pprop("ScpiVerif.Props.C04", [{"name": "p04", "cfgs": ["A"]}, {"name": "p05", "cfgs": ["A"]}], ["C04."],
     "decimal literals of every shape (1..25 digits, sign, point, exponent, white space before the exponent and after its E), #H/#Q/#B literals up to the type width, integer width boundaries, through the six numeric readers and SCPI_ParamNumber; every row of the unit table in four casings and three separations; every special mnemonic in short and long form and three casings; judged bit-exactly against Spec/Float.lean (correctly rounded value of the literal) and the generated unit table",
     ["translate/extract.py — scpi_units_def with multipliers as exact rationals, scpi_special_numbers_def"])
+PROPS["C17"] = _pprop("ScpiVerif.Props.C17", [{"name": "p17", "cfgs": ["A"]}, {"name": "p06", "cfgs": ["A"]}], ["C17."],
+    "one query whose script emits 1..3 blocks / binary arrays / integers: whole blocks of 0..300 random bytes, arrays of every element size (1, 2, 4, 8) in both byte orders with 0..37 elements, streamed header + data calls (exact, short, over-length chunk, zero-length chunks), header-only calls for every power of ten up to 10^8; judged by an independent streaming encoder (bytes, completed items, refused chunks)")
+PROPS["C18"] = {"module": "ScpiVerif.Props.C18", "domains": [{"name": "errstr", "cfgs": ["A", "B", "C"]}], "clauses": ["C18."], "level": "proof",
+    "trusted_base": [KERNEL, TRANSLATOR + " — LIST_OF_ERRORS descriptions, fallback text, 255-character limit", CORR, PLATFORM],
+    "assumptions": ["Model/Result.lean resultError transcribes SCPI_ResultError; texts are C strings"],
+    "rule": "cases = (heap size, rotation, code, text); every code -1000..1000 (stride 3 in quick), 14 codes x text lengths 0..300 x 40 quote placements around the 255-character cut, random texts up to 420 characters; in the static-heap build the text is made to wrap around the heap end; judged by an independent reader of the response string and Spec/ErrorString.lean; non-trivial = a text is present"}
+PROPS["C19"] = {"module": "ScpiVerif.Props.C19", "domains": [{"name": "expr", "cfgs": ["A"]}], "clauses": ["C19."], "level": "proof",
+    "trusted_base": [KERNEL, CORR, PLATFORM, "Spec/ExprList.lean: list grammar over the decimal token specification"],
+    "assumptions": ["Model/Expr.lean transcribes expression.c; integer values are strtol of the token text (Model/Prim.lean)"],
+    "rule": "cases = (expression body, index, capacity); every body up to length 5 (quick) / 6 (thorough) over {1,7,-,.,:,',',!,@,space,a}, grammar-generated lists of up to 8 entries and 5 dimensions with occasional damage, indices 0..9, capacities 0..4, canaries after the value arrays; non-trivial = non-empty body"}
 PROPS["C01"] = _pprop("ScpiVerif.Props.C01", [{"name": "p01", "cfgs": ["A", "B", "C", "D"]}, {"name": "lexer", "cfgs": ["A"]}], ["C01."],
     "mutated messages (byte flips, deletions, insertions, syntax characters, truncation), input buffers of 2..200 bytes, queue capacities 1..4, random segmentation with over-long chunks and zero-length calls, in all four build configurations under ASan+UBSan with the buffer-tail poisoning hook")
 
@@ -143,11 +154,14 @@ _T["C20"] = ("Theorems text_intact_or_absent / empty_means_reusable / fits_means
 _T["C03"] = ("Theorems: for every pattern of the property's grammar that satisfies the side condition and every header over the header alphabet, the model of matchCommand accepts iff the header is in the pattern's short/long-form language, and reports the numeric suffixes in keyword order with the caller's default for omitted ones.",
             "Lean kernel + standard axioms; model tied to utils.c by pattern-directed differential testing; Spec/Pattern.lean is the reading of the property",
             "Lean 4 theorem (greedy walker = declarative language under the side condition) + differential correspondence")
-for _k in ("C02", "C06", "C08", "C09", "C05", "C01", "C04"):
+for _k in ("C02", "C06", "C08", "C09", "C05", "C01", "C04", "C17", "C18", "C19"):
     _T[_k] = ("(theorems in progress)", "Lean kernel + standard axioms; context model tied to parser.c by scripted differential testing", "Lean 4 theorems over the context model + differential correspondence")
+_T["C01"] = ("PARTIAL BY NATURE. Theorems (Props/C01.lean): every recogniser keeps its cursor and token extent inside its input (from the C13 theorems, block recogniser included); the unit detector always makes progress and never leaves its input, so the unit loop of SCPI_Parse and the scan loop of SCPI_Input terminate; SCPI_Parse never exhausts its step budget, never composes a header before the start of the buffer and modifies no byte outside the message; SCPI_Input keeps position < buffer length for every chunk history; an over-long chunk copies nothing; SCPI_ParamCopyText and the array readers never store beyond the caller's capacity. These are statements about the algorithm as modelled: a C-level out-of-bounds read caused by a broken check-then-read pair, signed overflow or libc reading past a token cannot be exhibited by the model; for those the evidence is testing: every correspondence domain runs under ASan+UBSan with exact-size heap objects, canaries, a watchdog and the guarded buffer-tail poisoning hook, in four build configurations.",
+            "Lean kernel + standard axioms for the bounds/termination theorems; memory safety and undefined arithmetic of the C code itself are observed by sanitizers under the generators (testing)",
+            "Lean 4 bounds and termination theorems over the model + sanitizer-instrumented differential correspondence")
 for _k, (_a, _b, _c) in _T.items():
     PROPS[_k]["level_text"], PROPS[_k]["level_note"], PROPS[_k]["technique"] = _a, _b, _c
 
 # properties whose theorem module is not complete yet are not claimed
-for _k in ("C03", "C02", "C06", "C08", "C09", "C05", "C01", "C04"):
+for _k in ("C03", "C02", "C06", "C08", "C09", "C05", "C04", "C17", "C18", "C19"):  # C01 claimed
     PROPS[_k]["unclaimed"] = True
